@@ -36,9 +36,9 @@ text of one property and a private scratch git worktree of `/repo` (nothing from
 and asked to restructure the anchored code WITHOUT changing behaviour: `patch.diff` and the
 author's `README.md` (what was restructured, why behaviour is unchanged, that build, vet and
 the unedited suites pass). `Cxx-R*`: round 3 (8-60 lines, one kind each); `Cxx-L*`: round 5
-(40-150 lines across several functions); `Cxx-M*`: round 7 (20-90 lines, mixed kinds);
+(40-150 lines across several functions); `Cxx-M*`: round 7 and `Cxx-N*`: round 9 (20-90 lines, two or three kinds combined, the way a pull request does);
 `X01-renames`: a pure rename patch. Where a later `fix:` commit made a patch stop applying
-it was carried over by hand (`patch.orig.diff` kept).
+it was carried over (`patch.orig.diff` kept; after fix D17 by sub-agents that saw only the patch, its README and the fix: `REBASE-NOTES.md`; every rebased patch was rebuilt and run against the unedited suites).
 
 Replay: `python3 tools/refactors.py [--id X] [--prop Cxx]` applies each to a scratch copy and
 runs ALL 20 property checks on it; every check must stay silent. The ones that do not are
